@@ -28,6 +28,9 @@ type Tracer struct {
 	// FieldStores: for loads of struct fields, continue at every store to that field in module code.
 	FieldStores bool
 	MaxDepth    int
+	// ThroughDeref: `*p` of a pointer-valued expression continues at p (the pointee's origin is the pointer's), and a
+	// local cell's stores made through a capturing closure count as its definitions.
+	ThroughDeref bool
 	// Follow: when ascending from a parameter to callers, take Follow[i] as the i-th ascent
 	// (so that two traces of one operation use the same calling context); beyond it, all callers.
 	Follow []ssa.Instruction
@@ -172,9 +175,27 @@ func (t *Tracer) OriginsFrom(v ssa.Value, stack []ssa.Instruction) []Origin {
 						walk(st.Val, stack, viaArg, depth+1)
 					}
 				}
+				if t.ThroughDeref && a.Parent() != nil {
+					for _, an := range a.Parent().AnonFuncs {
+						Instrs(an, func(in ssa.Instruction) {
+							if st, ok := in.(*ssa.Store); ok {
+								if fv, ok := st.Addr.(*ssa.FreeVar); ok && t.bindsTo(fv, a) {
+									n++
+									walk(st.Val, nil, viaArg, depth+1)
+								}
+							}
+						})
+					}
+				}
 				if n == 0 {
 					emit(v, stack, viaArg, false)
 				}
+			case *ssa.UnOp, *ssa.Call, *ssa.Extract:
+				if t.ThroughDeref {
+					walk(a, stack, viaArg, depth+1)
+					return
+				}
+				emit(v, stack, viaArg, false)
 			case *ssa.FreeVar, *ssa.Parameter, *ssa.Phi:
 				// pointer to a cell held in a free variable (closure-captured local): trace the cell
 				ors := t.OriginsFrom(a, stack)
